@@ -1159,41 +1159,45 @@ def generated_cases(repo: str) -> list[Case]:
 RE_SUGGEST = re.compile(r"; did you mean .*\?$")
 
 
-def meta_signature(ab: Abstractor, b: dict[str, Any], a: dict[str, Any], v: Variant) -> str | None:
+def meta_signature(ab: Abstractor, b: dict[str, Any], a: dict[str, Any], v: Variant) -> list[str] | None:
     """Recognise (exactly) the two confirmed defects in which the front end consults `ignored_lines` itself;
     anything else gets a key that names the case and the edit."""
     if v.kind not in ("ignore", "ignores"):
         return None
     text = {i: t for t, i in ab.msg_ids.items()}
-    placed = {ln for ln, cs in v.placements if cs}
+    placed = {ln for ln, cs in v.placements}   # under a bare ignore the changed text is reported too (and then suppressed)
     be = [e for e in b["ev"] if e["t"] == "report"]
     ae = [e for e in a["ev"] if e["t"] == "report"]
 
     def plain(e: dict[str, Any]) -> Any:
-        r = dict(e["r"]); r = {k: r[k] for k in r if k not in ("msg", "par")}
+        r = {k: val for k, val in e["r"].items() if k not in ("msg", "par")}
         return json.dumps([e["f"], r], sort_keys=True)
 
-    if len(be) == len(ae):
-        diff = [(x, y) for x, y in zip(be, ae) if json.dumps(x, sort_keys=True) != json.dumps(y, sort_keys=True)]
-        if diff and all(plain(x) == plain(y) and x["r"]["code"] == "name-defined" and x["r"]["line"] in placed
-                        and x["r"]["msg"]["k"] == "m" and y["r"]["msg"]["k"] == "m"
-                        and RE_SUGGEST.search(text[x["r"]["msg"]["id"]])
-                        and RE_SUGGEST.sub("", text[x["r"]["msg"]["id"]]) == text[y["r"]["msg"]["id"]] for x, y in diff):
-            return "meta:unmatched-ignore-drops-name-suggestion"
-        return None
-    # variant = base minus "Did you mean ...?" notes of unresolved imports on the edited lines
+    # align the variant's reports with the base's: base reports without a partner were dropped by the edit
     j = 0
-    dropped = []
+    dropped, pairs = [], []
     for x in be:
-        if j < len(ae) and plain(x) == plain(ae[j]) and x["r"]["msg"] == ae[j]["r"]["msg"]:
+        if j < len(ae) and plain(x) == plain(ae[j]):
+            pairs.append((x, ae[j]))
             j += 1
         else:
             dropped.append(x)
-    if j == len(ae) and dropped and all(
-            x["r"]["sev"] == "note" and x["r"]["line"] in placed and x["r"]["code"] in ("import-not-found", "import", "import-untyped")
-            and re.match(r'^Did you mean .*\?$', text[x["r"]["msg"]["id"]]) for x in dropped):
-        return "meta:unmatched-ignore-drops-import-suggestion-note"
-    return None
+    if j != len(ae):
+        return None
+    changed = [(x, y) for x, y in pairs if x["r"]["msg"] != y["r"]["msg"]]
+    if not dropped and not changed:
+        return None
+    ok_changed = all(x["r"]["code"] == "name-defined" and x["r"]["line"] in placed
+                     and x["r"]["msg"]["k"] == "m" and y["r"]["msg"]["k"] == "m"
+                     and RE_SUGGEST.search(text[x["r"]["msg"]["id"]])
+                     and RE_SUGGEST.sub("", text[x["r"]["msg"]["id"]]) == text[y["r"]["msg"]["id"]] for x, y in changed)
+    ok_dropped = all(x["r"]["sev"] == "note" and x["r"]["line"] in placed
+                     and x["r"]["code"] in ("import-not-found", "import", "import-untyped") and x["r"]["msg"]["k"] == "m"
+                     and re.match(r'^Did you mean .*\?$', text[x["r"]["msg"]["id"]]) for x in dropped)
+    if not (ok_changed and ok_dropped):
+        return None
+    return (["meta:unmatched-ignore-drops-name-suggestion"] if changed else []) + \
+           (["meta:unmatched-ignore-drops-import-suggestion-note"] if dropped else [])
 
 
 # =========================================================================== command line (main.main) binding
@@ -1576,7 +1580,12 @@ def main(argv: list[str]) -> int:
 
     by_key = {c.key: c for c in corpus + gen_cases}
     confirmed: dict[str, bool] = {}
-    for pr in problems:
+    expanded = []
+    for pr in problems:       # one disagreement may show two of the catalogued defects at once
+        sigs = pr.get("sig")
+        for sg in (sigs if isinstance(sigs, list) else [sigs]):
+            expanded.append(dict(pr, sig=sg))
+    for pr in expanded:
         cls = pr["class"]
         key = pr.get("sig") or "%s:%s:%s" % (cls, pr["case"], pr["variant"])
         if key in v.known or len(v.violations) >= 25:
